@@ -87,7 +87,8 @@ Silent ==
 TNext == Event \/ Silent
 TSpec == TInit /\ [][TNext]_tvars
 
-Live == ~dead /\ TLCSet(1, IF l > TLCGet(1) THEN l ELSE TLCGet(1))
+\* (once some branch has consumed the whole log the remaining branches are not explored any further)
+Live == ~dead /\ TLCGet(1) <= N /\ TLCSet(1, IF l > TLCGet(1) THEN l ELSE TLCGet(1))
 
 Accepted ==
   \/ TLCGet(1) = N + 1
